@@ -381,7 +381,7 @@ func c20(args []string) error {
 				// the series / continued fraction terminate: a call that does not return within 5 s is recorded as -1,
 				// a value outside [0,1] that both oracles reject (the spinning goroutine is abandoned)
 				xk := xs[k].f()
-				if hungTotal > 5 { // enough evidence: no more calls that may spin
+				if hung > 1 || hungTotal > 5 { // enough evidence: no more calls that may spin
 					out[k] = -1
 					continue
 				}
@@ -395,9 +395,6 @@ func c20(args []string) error {
 					hung++
 					hungTotal++
 				}
-				if hung > 1 || hungTotal > 5 {
-					break
-				}
 			}
 			w.add(fmt.Sprintf("mk 5 %d (1#1)%%Q %s false true %s %s", npts, qList([]dyadic{alpha}), flList(out), qList(xs)),
 				map[string]interface{}{"op": "IncompleteGamma", "alpha": alpha.f(), "xmax": xs[npts-1].f()})
@@ -407,7 +404,7 @@ func c20(args []string) error {
 				for c := 0; c < 2; c++ {
 					k := 1 + r.Intn(npts-1)
 					x := xs[k]
-					if x.f() > 12 || x.num == 0 {
+					if x.f() > 12 || x.num == 0 || math.IsNaN(out[k]) || math.IsInf(out[k], 0) || out[k] < 0 {
 						continue
 					}
 					N := int(4*x.f()) + 30
@@ -437,7 +434,7 @@ func c20(args []string) error {
 					}
 					addCert(fmt.Sprintf("cert_incgamma (%d / %d) (%d / %d) %s %s %s %s (1/10000000)", x.num, x.den, alpha.num, alpha.den,
 						gammaTerm(twoP), ratLit(round(h, false)), ratLit(round(tail, true)), realLit(out[k])),
-						map[string]interface{}{"what": "IncompleteGamma:series", "alpha": alpha.f(), "x": x.f(), "terms": N, "go_value": out[k]})
+						map[string]interface{}{"what": "IncompleteGamma:series", "alpha": alpha.f(), "x": x.f(), "terms": N, "go_value": fmt.Sprint(out[k])})
 				}
 			}
 		}
